@@ -1,12 +1,576 @@
 import LunaVerif.Lemmas.Ltssm
+import Mathlib.Tactic.SplitIfs
 /-!
 # C41 — The LTSSM reaches U0 only through training and honours resets and timeouts
+
+"The link reports ready only after, since the last reset, it has detected a partner, exchanged
+polling LFPS (or TS1 when loosened) and completed the TS1/TS2 exchange, and, since the last entry
+to polling, recovery or hot reset, it has completed the TS2 exchange and the idle handshake; a warm
+or power-on reset removes link-ready within one cycle and keeps the link out of U0 while it lasts.
+Each training, recovery and inactive substate with a defined timeout is left no later than that
+timeout (12 ms, 2 ms or 360 ms as documented).  Scrambling is enabled in U0 unless either side
+requested otherwise."
+
+All theorems are about the model `LunaVerif.Ltssm` of the controller *with the F18 repair*
+(warm-reset handling emitted last in every state) and hold for every input history and every
+configuration (`Config.Valid` where the counter width matters).  "Reset" is a cycle in which the
+input `in_usb_reset` is asserted (the only reset input the controller reads).
+
+Ghost / history variables (defined here, not in the model):
+* `sinceReset` — the (FSM state, inputs) pairs of all cycles after the last reset cycle,
+* `sinceEntry` — the same since the FSM last *entered* Polling.LFPS, Recovery.Active or Hot Reset.Active,
+* `age`        — the number of cycles since the current FSM state was entered,
+* `ourReq`, `partnerReq` — what either side asked about scrambling during the last training.
 -/
 namespace LunaVerif.Ltssm
+
+/-! ## Resets -/
 
 /-- While `in_usb_reset` is asserted the next state is Rx.Detect.Reset, from every state. -/
 theorem reset_forces_rx_detect_reset (c : Config) (s : State) (i : In) (h : i.inUsbReset = true) :
     (next c s i).st = .RxDetectReset := by
-  cases hst : s.st <;> ltssm_norm [hst, h] <;> simp [h]
+  cases hst : s.st <;> ltssm_norm [hst, h] <;> simp
+
+/-- `link_ready` is exactly "the FSM is in U0". -/
+theorem link_ready_iff_u0 (c : Config) (s : State) (i : In) :
+    (out c s i).linkReady = true ↔ s.st = .U0 := by
+  simp [out]
+
+/-- A reset cycle removes link-ready within one cycle: whatever the state `s` (in particular U0
+with `link_ready` high) and whatever the other inputs, in the cycle after a cycle with
+`in_usb_reset` the output `link_ready` is low. -/
+theorem reset_removes_link_ready_next_cycle (c : Config) (s : State) (i j : In)
+    (h : i.inUsbReset = true) : (out c (next c s i) j).linkReady = false := by
+  have := reset_forces_rx_detect_reset c s i h
+  simp [out, this]
+
+theorem runFrom_append (c : Config) (s : State) (a b : List In) :
+    runFrom c s (a ++ b) = runFrom c (runFrom c s a) b := by
+  induction a generalizing s with
+  | nil => rfl
+  | cons x xs ih => simp [runFrom, ih]
+
+/-- … and keeps the link out of U0 while it lasts: for every input history, a cycle that follows a
+cycle with `in_usb_reset` asserted is not spent in U0 (so during a reset of k cycles the link is out
+of U0 from the second of them up to and including the cycle after the last). -/
+theorem no_u0_during_reset (c : Config) (hist : List In) (i : In) (h : i.inUsbReset = true) :
+    (runFrom c init (hist ++ [i])).st ≠ .U0 := by
+  rw [runFrom_append]
+  simp [runFrom, reset_forces_rx_detect_reset c _ i h]
+
+/-! ## Time-outs -/
+
+/-- The substates with a time-out and its length in cycles (12 ms, 2 ms or 360 ms at the clock). -/
+def timeoutOf (c : Config) : St → Option Nat
+  | .RxDetectQuiet => some c.c12
+  | .PollingLFPS => some c.c360
+  | .PollingActive => some c.c12
+  | .PollingConfiguration => some c.c12
+  | .PollingIdle => some c.c2
+  | .HotResetActive => some c.c12
+  | .HotResetExit => some c.c2
+  | .RecoveryActive => some c.c12
+  | .RecoveryConfiguration => some c.c12
+  | .RecoveryIdle => some c.c2
+  | .SSInactiveQuiet => some c.c12
+  | _ => none
+
+/-- Ghost: the registers together with the age of the current FSM state (0 in its first cycle). -/
+def ageStep (c : Config) (sa : State × Nat) (i : In) : State × Nat :=
+  let s' := next c sa.1 i
+  (s', if s'.st = sa.1.st then sa.2 + 1 else 0)
+
+def ageRun (c : Config) : State × Nat → List In → State × Nat
+  | sa, [] => sa
+  | sa, i :: is => ageRun c (ageStep c sa i) is
+
+/-- In a timed state: staying means that the counter advanced without wrapping and had not yet
+reached the time-out; leaving any state clears the counter. -/
+theorem timed_stay (c : Config) (s : State) (i : In) (T : Nat) (hT : timeoutOf c s.st = some T)
+    (hstay : (next c s i).st = s.st) :
+    s.cycles ≠ T ∧ (next c s i).cycles = (s.cycles + 1) % c.ctrMod := by
+  revert hT hstay
+  cases hst : s.st <;> simp only [timeoutOf, reduceCtorEq, false_implies, Option.some.injEq] <;>
+    intro hT <;> subst hT <;> ltssm_norm [hst] <;> split_ifs <;> simp_all
+
+theorem leave_clears (c : Config) (s : State) (i : In) (h : (next c s i).st ≠ s.st) :
+    (next c s i).cycles = 0 := by
+  revert h
+  cases hst : s.st <;> ltssm_norm [hst] <;> split_ifs <;> simp_all
+
+theorem timeout_le_c360 (c : Config) (hc : c.Valid) (st : St) (T : Nat) (h : timeoutOf c st = some T) :
+    T ≤ c.c360 := by
+  obtain ⟨h1, h2, _⟩ := hc
+  cases st <;> simp [timeoutOf] at h <;> omega
+
+/-- The invariant behind `timeouts_respected`: in a timed state the time-out counter *is* the age,
+and it has not passed the time-out. -/
+def AgeInv (c : Config) (sa : State × Nat) : Prop :=
+  ∀ T, timeoutOf c sa.1.st = some T → sa.1.cycles = sa.2 ∧ sa.2 ≤ T
+
+theorem ageInv_step (c : Config) (hc : c.Valid) (sa : State × Nat) (i : In) (h : AgeInv c sa) :
+    AgeInv c (ageStep c sa i) := by
+  intro T hT
+  simp only [ageStep] at hT ⊢
+  by_cases hstay : (next c sa.1 i).st = sa.1.st
+  · rw [hstay] at hT
+    obtain ⟨hne, hcyc⟩ := timed_stay c sa.1 i T hT hstay
+    obtain ⟨heq, hle⟩ := h T hT
+    have hT360 := timeout_le_c360 c hc _ T hT
+    have hmod : (sa.1.cycles + 1) % c.ctrMod = sa.1.cycles + 1 :=
+      Nat.mod_eq_of_lt (by have := hc.2.2; omega)
+    simp only [hstay, if_true]
+    rw [hcyc, hmod]
+    omega
+  · simp only [hstay, if_false]
+    exact ⟨leave_clears c sa.1 i hstay, Nat.zero_le _⟩
+
+theorem ageInv_run (c : Config) (hc : c.Valid) (sa : State × Nat) (hist : List In) (h : AgeInv c sa) :
+    AgeInv c (ageRun c sa hist) := by
+  induction hist generalizing sa with
+  | nil => exact h
+  | cons i is ih => exact ih _ (ageInv_step c hc sa i h)
+
+/-- **Time-outs.**  For every history: whenever the FSM is in a substate with a time-out of `T`
+cycles, it has been there for at most `T` cycles (age ≤ T, i.e. the state is occupied during at
+most the `T + 1` cycles with ages `0 … T`; the decision to leave is taken in the cycle of age `T`). -/
+theorem timeouts_respected (c : Config) (hc : c.Valid) (hist : List In) (T : Nat)
+    (hT : timeoutOf c (ageRun c (init, 0) hist).1.st = some T) :
+    (ageRun c (init, 0) hist).2 ≤ T :=
+  ((ageInv_run c hc (init, 0) hist (by intro T h; simp [timeoutOf, init] at h)) T hT).2
+
+/-- … and in the cycle of age `T` the state is left, whatever the inputs. -/
+theorem timeout_leaves (c : Config) (hc : c.Valid) (hist : List In) (i : In) (T : Nat)
+    (hT : timeoutOf c (ageRun c (init, 0) hist).1.st = some T)
+    (hage : (ageRun c (init, 0) hist).2 = T) :
+    (next c (ageRun c (init, 0) hist).1 i).st ≠ (ageRun c (init, 0) hist).1.st := by
+  intro hstay
+  have hinv := ageInv_run c hc (init, 0) hist (by intro T h; simp [timeoutOf, init] at h) T hT
+  have := (timed_stay c _ i T hT hstay).1
+  omega
+
+/-! ## Training: link-ready only after the handshake sequence -/
+
+/-- One observed cycle: the FSM state it was spent in and the inputs of that cycle. -/
+abbrev Ev := St × In
+
+/-- `HasSubseq ps log`: the log (oldest first) contains, in this order but not necessarily
+adjacent, events `e₁, e₂, …` with `p₁ e₁`, `p₂ e₂`, … -/
+def HasSubseq {α : Type} : List (α → Bool) → List α → Prop
+  | [], _ => True
+  | _ :: _, [] => False
+  | p :: ps, x :: xs => (p x = true ∧ HasSubseq ps xs) ∨ HasSubseq (p :: ps) xs
+
+theorem HasSubseq.nil {α : Type} (xs : List α) : HasSubseq ([] : List (α → Bool)) xs := by
+  cases xs <;> simp [HasSubseq]
+
+theorem HasSubseq.append_right {α : Type} {ps : List (α → Bool)} {xs : List α} (ys : List α)
+    (h : HasSubseq ps xs) : HasSubseq ps (xs ++ ys) := by
+  induction xs generalizing ps with
+  | nil =>
+    cases ps with
+    | nil => exact HasSubseq.nil _
+    | cons p ps => simp [HasSubseq] at h
+  | cons x xs ih =>
+    cases ps with
+    | nil => exact HasSubseq.nil _
+    | cons p ps =>
+      simp only [HasSubseq, List.cons_append] at h ⊢
+      rcases h with ⟨hp, h⟩ | h
+      · exact Or.inl ⟨hp, ih h⟩
+      · exact Or.inr (ih h)
+
+theorem HasSubseq.snoc {α : Type} {ps : List (α → Bool)} {xs : List α} {p : α → Bool} {x : α}
+    (h : HasSubseq ps xs) (hp : p x = true) : HasSubseq (ps ++ [p]) (xs ++ [x]) := by
+  induction xs generalizing ps with
+  | nil =>
+    cases ps with
+    | nil => simp [HasSubseq, hp]
+    | cons q qs => simp [HasSubseq] at h
+  | cons y ys ih =>
+    cases ps with
+    | nil =>
+      simp only [List.nil_append, List.cons_append, HasSubseq]
+      exact Or.inr (ih (HasSubseq.nil _))
+    | cons q qs =>
+      simp only [HasSubseq, List.cons_append] at h ⊢
+      rcases h with ⟨hq, h⟩ | h
+      · exact Or.inl ⟨hq, ih h⟩
+      · exact Or.inr (ih h)
+
+theorem HasSubseq.take {α : Type} {ps : List (α → Bool)} {xs : List α} (k : Nat)
+    (h : HasSubseq ps xs) : HasSubseq (ps.take k) xs := by
+  induction xs generalizing ps k with
+  | nil =>
+    cases ps with
+    | nil => simp [HasSubseq]
+    | cons p ps => simp [HasSubseq] at h
+  | cons x xs ih =>
+    cases ps with
+    | nil => simp [HasSubseq]
+    | cons p ps =>
+      cases k with
+      | zero => simp [HasSubseq]
+      | succ k =>
+        simp only [HasSubseq, List.take_succ_cons] at h ⊢
+        rcases h with ⟨hp, h⟩ | h
+        · exact Or.inl ⟨hp, ih k h⟩
+        · have := ih (k + 1) h
+          simp only [List.take_succ_cons] at this
+          exact Or.inr this
+
+/-- The k-th step of a chain holds of an event (false beyond the end of the chain). -/
+def evAt (chain : List (Ev → Bool)) (k : Nat) (e : Ev) : Bool :=
+  match chain[k]? with
+  | some p => p e
+  | none => false
+
+/-- One step of a rank argument: if the log contains the first `r` steps of the chain, and the new
+rank is either not larger, or larger by one with the new event satisfying step `r`, then the
+extended log contains the first `r'` steps. -/
+theorem rank_step (chain : List (Ev → Bool)) (log : List Ev) (e : Ev) (r r' : Nat)
+    (hinv : HasSubseq (chain.take r) log)
+    (h : r' ≤ r ∨ (r' = r + 1 ∧ evAt chain r e = true)) :
+    HasSubseq (chain.take r') (log ++ [e]) := by
+  rcases h with h | ⟨h, he⟩
+  · have := (HasSubseq.take r' hinv).append_right [e]
+    rwa [List.take_take, Nat.min_eq_left h] at this
+  · subst h
+    unfold evAt at he
+    cases hk : chain[r]? with
+    | none => simp [hk] at he
+    | some p =>
+      simp only [hk] at he
+      have hr : r < chain.length := by
+        rcases Nat.lt_or_ge r chain.length with h | h
+        · exact h
+        · simp [List.getElem?_eq_none h] at hk
+      have : chain.take (r + 1) = chain.take r ++ [p] := by
+        rw [List.take_add_one, hk]; rfl
+      rw [this]
+      exact hinv.snoc he
+
+/-! ### The ghost logs -/
+
+/-- The FSM *enters* Polling, Recovery or Hot Reset. -/
+def isEntry (a b : St) : Bool :=
+  a != b && (b == .PollingLFPS || b == .RecoveryActive || b == .HotResetActive)
+
+structure Ghost where
+  s : State
+  sinceReset : List Ev      -- cycles after the last cycle with in_usb_reset, oldest first
+  sinceEntry : List Ev      -- cycles since the FSM last entered Polling.LFPS / Recovery.Active / Hot Reset.Active
+
+def gstep (c : Config) (g : Ghost) (i : In) : Ghost :=
+  let s' := next c g.s i
+  { s := s'
+    sinceReset := if i.inUsbReset then [] else g.sinceReset ++ [(g.s.st, i)]
+    sinceEntry := if isEntry g.s.st s'.st then [] else g.sinceEntry ++ [(g.s.st, i)] }
+
+def grun (c : Config) : Ghost → List In → Ghost
+  | g, [] => g
+  | g, i :: is => grun c (gstep c g i) is
+
+def ginit : Ghost := ⟨init, [], []⟩
+
+theorem grun_inv (c : Config) (P : Ghost → Prop) (hs : ∀ g i, P g → P (gstep c g i)) (g : Ghost)
+    (hist : List In) (h0 : P g) : P (grun c g hist) := by
+  induction hist generalizing g with
+  | nil => exact h0
+  | cons i is ih => exact ih _ (hs g i h0)
+
+/-- the ghost run carries exactly the model's registers -/
+theorem grun_s (c : Config) (g : Ghost) (hist : List In) : (grun c g hist).s = runFrom c g.s hist := by
+  induction hist generalizing g with
+  | nil => rfl
+  | cons i is ih => simp [grun, runFrom, ih, gstep]
+
+/-! ### The events of the handshake -/
+
+def evPartner : Ev → Bool := fun e => e.1 == .RxDetectActive && e.2.linkPartnerDetected
+def evLfpsRx (c : Config) : Ev → Bool := fun e =>
+  e.1 == .PollingLFPS && (e.2.lfpsPollingDetected || (c.loosen && e.2.ts1Detected))
+def evLfpsTx : Ev → Bool := fun e => e.1 == .PollingLFPS && decide (e.2.lfpsCyclesSent ≥ 16)
+def evTseq : Ev → Bool := fun e => e.1 == .PollingRxEQ && e.2.tsBurstComplete
+def evTs1Tx : Ev → Bool := fun e => e.1 == .PollingActive && e.2.tsBurstComplete
+def evTsRx : Ev → Bool := fun e =>
+  e.1 == .PollingActive && (e.2.ts1Detected || e.2.ts2Detected || e.2.invertedTs1Detected)
+def evTs2RxP : Ev → Bool := fun e =>
+  (e.1 == .PollingActive || e.1 == .PollingConfiguration) && e.2.ts2Detected
+def evTs2TxP : Ev → Bool := fun e => e.1 == .PollingConfiguration && e.2.tsBurstComplete
+def evTs2More : Ev → Bool := fun e => e.1 == .PollingConfigurationExit && e.2.tsBurstComplete
+def evTs2Rx : Ev → Bool := fun e =>
+  (e.1 == .PollingActive || e.1 == .PollingConfiguration || e.1 == .RecoveryActive ||
+   e.1 == .RecoveryConfiguration || e.1 == .HotResetActive) && e.2.ts2Detected
+def evTs2Tx : Ev → Bool := fun e =>
+  (e.1 == .PollingConfiguration || e.1 == .RecoveryConfiguration || e.1 == .HotResetActive) &&
+  e.2.tsBurstComplete
+def evIdle : Ev → Bool := fun e =>
+  (e.1 == .PollingIdle || e.1 == .RecoveryIdle || e.1 == .HotResetExit) && e.2.idleHandshakeComplete
+
+/-- Since the last reset: receiver detection found a partner; polling LFPS was received (or TS1
+when loosened); the TSEQ burst was sent; a TS1 burst was sent; TS1/TS2 were received; the TS2 burst
+was sent (which the code only accepts once TS2 has been received, see `ts2RxChain`); the closing
+TS2 burst was sent. -/
+def trainingChain (c : Config) : List (Ev → Bool) :=
+  [evPartner, evLfpsRx c, evTseq, evTs1Tx, evTsRx, evTs2TxP, evTs2More]
+/-- Since the last reset: … TS2 was received during Polling.Active/Configuration before the TS2
+burst that ended Polling.Configuration. -/
+def ts2RxChain : List (Ev → Bool) := [evPartner, evTseq, evTs2RxP, evTs2TxP]
+/-- Since the last reset: … the PHY reported at least 16 polling LFPS bursts sent, in Polling.LFPS. -/
+def lfpsTxChain : List (Ev → Bool) := [evPartner, evLfpsTx, evTseq]
+/-- Since the last entry to Polling / Recovery / Hot Reset: TS2 received, then a TS2 burst sent,
+then the idle handshake completed. -/
+def entryChain : List (Ev → Bool) := [evTs2Rx, evTs2Tx, evIdle]
+
+/-! ### Ranks: how far along each chain the registers say we are -/
+
+def rankTraining (s : State) : Nat :=
+  match s.st with
+  | .PollingLFPS => if s.lfpsBurstSeen then 2 else 1
+  | .PollingRxEQ => 2
+  | .PollingActive => if s.burstMinimumMet then 4 else 3
+  | .PollingConfiguration => 5
+  | .PollingConfigurationExit => 6
+  | .PollingIdle | .U0 | .HotResetActive | .HotResetExit
+  | .RecoveryActive | .RecoveryConfiguration | .RecoveryConfigurationExit | .RecoveryIdle => 7
+  | _ => 0
+
+def rankTs2Rx (s : State) : Nat :=
+  match s.st with
+  | .PollingLFPS | .PollingRxEQ => 1
+  | .PollingActive | .PollingConfiguration => if s.ts2Seen then 3 else 2
+  | .PollingConfigurationExit
+  | .PollingIdle | .U0 | .HotResetActive | .HotResetExit
+  | .RecoveryActive | .RecoveryConfiguration | .RecoveryConfigurationExit | .RecoveryIdle => 4
+  | _ => 0
+
+def rankLfpsTx (s : State) : Nat :=
+  match s.st with
+  | .PollingLFPS => if s.targetLfpsCount ≥ 16 then 1 else 2
+  | .PollingRxEQ => 2
+  | .PollingActive | .PollingConfiguration | .PollingConfigurationExit
+  | .PollingIdle | .U0 | .HotResetActive | .HotResetExit
+  | .RecoveryActive | .RecoveryConfiguration | .RecoveryConfigurationExit | .RecoveryIdle => 3
+  | _ => 0
+
+def rankEntry (s : State) : Nat :=
+  match s.st with
+  | .PollingActive | .PollingConfiguration | .RecoveryActive | .RecoveryConfiguration
+  | .HotResetActive => if s.ts2Seen then 1 else 0
+  | .PollingConfigurationExit | .RecoveryConfigurationExit
+  | .PollingIdle | .RecoveryIdle | .HotResetExit => 2
+  | .U0 => 3
+  | _ => 0
+
+/-! ### One-step lemmas: each rank grows by at most one, and only on the matching event -/
+
+theorem adv_training (c : Config) (s : State) (i : In) (h : i.inUsbReset = false) :
+    rankTraining (next c s i) ≤ rankTraining s ∨
+    (rankTraining (next c s i) = rankTraining s + 1 ∧ evAt (trainingChain c) (rankTraining s) (s.st, i) = true) := by
+  cases hst : s.st <;> simp only [rankTraining, hst] <;> ltssm_norm [hst, h] <;> (try split_ifs) <;>
+    simp_all [evAt, trainingChain, evPartner, evLfpsRx, evTseq, evTs1Tx, evTsRx, evTs2TxP, evTs2More]
+
+theorem adv_ts2rx (c : Config) (s : State) (i : In) (h : i.inUsbReset = false) :
+    rankTs2Rx (next c s i) ≤ rankTs2Rx s ∨
+    (rankTs2Rx (next c s i) = rankTs2Rx s + 1 ∧ evAt ts2RxChain (rankTs2Rx s) (s.st, i) = true) := by
+  cases hst : s.st <;> simp only [rankTs2Rx, hst] <;> ltssm_norm [hst, h] <;> (try split_ifs) <;>
+    simp_all [evAt, ts2RxChain, evPartner, evTseq, evTs2RxP, evTs2TxP]
+
+theorem adv_lfpstx (c : Config) (s : State) (i : In) (h : i.inUsbReset = false) :
+    rankLfpsTx (next c s i) ≤ rankLfpsTx s ∨
+    (rankLfpsTx (next c s i) = rankLfpsTx s + 1 ∧ evAt lfpsTxChain (rankLfpsTx s) (s.st, i) = true) := by
+  cases hst : s.st <;> simp only [rankLfpsTx, hst] <;> ltssm_norm [hst, h] <;> (try split_ifs) <;>
+    simp_all [evAt, lfpsTxChain, evPartner, evTseq, evLfpsTx] <;> omega
+
+theorem adv_entry (c : Config) (s : State) (i : In) (h : isEntry s.st (next c s i).st = false) :
+    rankEntry (next c s i) ≤ rankEntry s ∨
+    (rankEntry (next c s i) = rankEntry s + 1 ∧ evAt entryChain (rankEntry s) (s.st, i) = true) := by
+  revert h
+  cases hst : s.st <;> simp only [rankEntry, hst, isEntry] <;> ltssm_norm [hst] <;> (try split_ifs) <;>
+    simp_all [evAt, entryChain, evTs2Rx, evTs2Tx, evIdle]
+
+theorem entry_rank0 (c : Config) (s : State) (i : In) (h : isEntry s.st (next c s i).st = true) :
+    rankEntry (next c s i) = 0 := by
+  revert h
+  cases hst : s.st <;> simp only [rankEntry, isEntry] <;> ltssm_norm [hst] <;> (try split_ifs) <;>
+    simp_all
+
+/-! ### The invariant and the theorems -/
+
+def TrainInv (c : Config) (g : Ghost) : Prop :=
+  HasSubseq ((trainingChain c).take (rankTraining g.s)) g.sinceReset ∧
+  HasSubseq (ts2RxChain.take (rankTs2Rx g.s)) g.sinceReset ∧
+  HasSubseq (lfpsTxChain.take (rankLfpsTx g.s)) g.sinceReset ∧
+  HasSubseq (entryChain.take (rankEntry g.s)) g.sinceEntry
+
+theorem trainInv_init (c : Config) : TrainInv c ginit := by
+  simp [TrainInv, ginit, init, rankTraining, rankTs2Rx, rankLfpsTx, rankEntry, HasSubseq]
+
+theorem trainInv_step (c : Config) (g : Ghost) (i : In) (h : TrainInv c g) : TrainInv c (gstep c g i) := by
+  obtain ⟨h1, h2, h3, h4⟩ := h
+  simp only [TrainInv, gstep]
+  refine ⟨?_, ?_, ?_, ?_⟩
+  · cases hr : i.inUsbReset
+    · simpa [hr] using rank_step _ _ (g.s.st, i) _ _ h1 (adv_training c g.s i hr)
+    · have := reset_forces_rx_detect_reset c g.s i hr
+      simp [rankTraining, this, HasSubseq.nil]
+  · cases hr : i.inUsbReset
+    · simpa [hr] using rank_step _ _ (g.s.st, i) _ _ h2 (adv_ts2rx c g.s i hr)
+    · have := reset_forces_rx_detect_reset c g.s i hr
+      simp [rankTs2Rx, this, HasSubseq.nil]
+  · cases hr : i.inUsbReset
+    · simpa [hr] using rank_step _ _ (g.s.st, i) _ _ h3 (adv_lfpstx c g.s i hr)
+    · have := reset_forces_rx_detect_reset c g.s i hr
+      simp [rankLfpsTx, this, HasSubseq.nil]
+  · cases he : isEntry g.s.st (next c g.s i).st
+    · simpa [he] using rank_step _ _ (g.s.st, i) _ _ h4 (adv_entry c g.s i he)
+    · simp [entry_rank0 c g.s i he, HasSubseq.nil]
+
+theorem trainInv_run (c : Config) (hist : List In) : TrainInv c (grun c ginit hist) :=
+  grun_inv c (TrainInv c) (trainInv_step c) ginit hist (trainInv_init c)
+
+/-- **Link-ready only after training (1).**  For every input history: if the FSM is in U0 (i.e.
+`link_ready` is high), then the cycles since the last reset contain, in this order: a partner
+detected in Rx.Detect.Active; polling LFPS received (or TS1 when loosened) in Polling.LFPS; the
+TSEQ burst completed in Polling.RxEQ; a TS1 burst completed in Polling.Active; TS1/TS2 (or inverted
+TS1) received in Polling.Active; the TS2 burst completed in Polling.Configuration; the closing TS2
+burst completed in Polling.Configuration.Exit. -/
+theorem link_ready_only_after_training (c : Config) (hist : List In)
+    (h : (grun c ginit hist).s.st = .U0) :
+    HasSubseq (trainingChain c) (grun c ginit hist).sinceReset := by
+  have := (trainInv_run c hist).1
+  simpa [rankTraining, h, trainingChain] using this
+
+/-- **(2)** … and a partner detected, the TSEQ burst, TS2 *received* in Polling.Active or
+Polling.Configuration, then the TS2 burst completed in Polling.Configuration (the TS2 exchange). -/
+theorem link_ready_only_after_ts2_rx (c : Config) (hist : List In)
+    (h : (grun c ginit hist).s.st = .U0) :
+    HasSubseq ts2RxChain (grun c ginit hist).sinceReset := by
+  have := (trainInv_run c hist).2.1
+  simpa [rankTs2Rx, h, ts2RxChain] using this
+
+/-- **(3)** … and, between the partner detection and the TSEQ burst, a cycle in Polling.LFPS in which
+the PHY reported at least 16 polling LFPS bursts sent. -/
+theorem link_ready_only_after_lfps_sent (c : Config) (hist : List In)
+    (h : (grun c ginit hist).s.st = .U0) :
+    HasSubseq lfpsTxChain (grun c ginit hist).sinceReset := by
+  have := (trainInv_run c hist).2.2.1
+  simpa [rankLfpsTx, h, lfpsTxChain] using this
+
+/-- **(4)** Since the last entry to Polling (Polling.LFPS), Recovery (Recovery.Active) or Hot Reset
+(Hot Reset.Active): TS2 received, then a TS2 burst completed, then the idle handshake completed. -/
+theorem link_ready_only_after_handshake_since_entry (c : Config) (hist : List In)
+    (h : (grun c ginit hist).s.st = .U0) :
+    HasSubseq entryChain (grun c ginit hist).sinceEntry := by
+  have := (trainInv_run c hist).2.2.2
+  simpa [rankEntry, h, entryChain] using this
+
+/-- The ghost run is the model's run (so "U0" above is `link_ready` of the model after `hist`). -/
+theorem grun_is_model_run (c : Config) (hist : List In) (j : In) :
+    (out c (grun c ginit hist).s j).linkReady = (out c (runFrom c init hist) j).linkReady := by
+  rw [grun_s]; rfl
+
+/-! ## Scrambling -/
+
+/-- The FSM enters one of the states whose entry tasks sample `disable_scrambling` and clear the
+"partner asked for no scrambling" latch. -/
+def isScrEntry (a b : St) : Bool :=
+  a != b && (b == .PollingRxEQ || b == .PollingActive || b == .RecoveryActive)
+
+structure ScrGhost where
+  s : State
+  ourReq : Bool         -- `disable_scrambling` in the cycle of the last such entry
+  partnerReq : Bool     -- `no_scrambling_requested` seen in some cycle since then
+
+def scrStep (c : Config) (g : ScrGhost) (i : In) : ScrGhost :=
+  let s' := next c g.s i
+  if isScrEntry g.s.st s'.st then ⟨s', i.disableScrambling, false⟩
+  else ⟨s', g.ourReq, g.partnerReq || i.noScramblingRequested⟩
+
+def scrRun (c : Config) : ScrGhost → List In → ScrGhost
+  | g, [] => g
+  | g, i :: is => scrRun c (scrStep c g i) is
+
+/-- the states between the first such entry and the next return to Rx.Detect / an inactive state -/
+def inTraining : St → Bool
+  | .PollingRxEQ | .PollingActive | .PollingConfiguration | .PollingConfigurationExit | .PollingIdle
+  | .U0 | .HotResetActive | .HotResetExit
+  | .RecoveryActive | .RecoveryConfiguration | .RecoveryConfigurationExit | .RecoveryIdle => true
+  | _ => false
+
+theorem scr_fields (c : Config) (s : State) (i : In) (h : inTraining (next c s i).st = true) :
+    if isScrEntry s.st (next c s i).st then
+      (next c s i).requestNoScrambling = i.disableScrambling ∧ (next c s i).disableScramblingSeen = false
+    else
+      inTraining s.st = true ∧ (next c s i).requestNoScrambling = s.requestNoScrambling ∧
+      (next c s i).disableScramblingSeen = (s.disableScramblingSeen || i.noScramblingRequested) := by
+  revert h
+  cases hst : s.st <;> simp only [isScrEntry, inTraining] <;> ltssm_norm [hst] <;> (try split_ifs) <;>
+    simp_all
+
+def ScrInv (g : ScrGhost) : Prop :=
+  inTraining g.s.st = true →
+    g.s.requestNoScrambling = g.ourReq ∧ g.s.disableScramblingSeen = g.partnerReq
+
+theorem scrInv_step (c : Config) (g : ScrGhost) (i : In) (h : ScrInv g) : ScrInv (scrStep c g i) := by
+  intro ht
+  have hf := scr_fields c g.s i
+  unfold scrStep at ht ⊢
+  cases he : isScrEntry g.s.st (next c g.s i).st
+  · simp only [he] at ht hf ⊢
+    obtain ⟨hin, h1, h2⟩ := hf (by simpa using ht)
+    obtain ⟨h3, h4⟩ := h hin
+    simp [h1, h2, h3, h4]
+  · simp only [he] at ht hf ⊢
+    obtain ⟨h1, h2⟩ := hf (by simpa using ht)
+    simp [h1, h2]
+
+theorem scrInv_run (c : Config) (g : ScrGhost) (hist : List In) (h : ScrInv g) : ScrInv (scrRun c g hist) := by
+  induction hist generalizing g with
+  | nil => exact h
+  | cons i is ih => exact ih _ (scrInv_step c g i h)
+
+/-- **Scrambling.**  For every input history: in U0 `enable_scrambling` is high exactly when neither
+side asked otherwise — our side through `disable_scrambling` (sampled when Polling.RxEQ,
+Polling.Active or Recovery.Active was last entered), the partner through a training set with the
+"disable scrambling" bit (`no_scrambling_requested`) in some cycle since that entry. -/
+theorem scrambling_in_u0 (c : Config) (hist : List In) (j : In)
+    (h : (scrRun c ⟨init, false, false⟩ hist).s.st = .U0) :
+    (out c (scrRun c ⟨init, false, false⟩ hist).s j).enableScrambling =
+      (!(scrRun c ⟨init, false, false⟩ hist).ourReq && !(scrRun c ⟨init, false, false⟩ hist).partnerReq) := by
+  have hinv := scrInv_run c ⟨init, false, false⟩ hist (by intro h; simp [init, inTraining] at h)
+  obtain ⟨h1, h2⟩ := hinv (by simp [h, inTraining])
+  simp [out, h, scramblingWanted, h1, h2]
+
+/-! ## Non-vacuity: a concrete run from power-on to U0 (2 kHz counts) and back out by a reset -/
+
+def exIn : In :=
+  { inUsbReset := false, triggerLinkRecovery := false, phyReady := true, disableScrambling := false,
+    linkPartnerDetected := false, noLinkPartnerDetected := false, lfpsPollingDetected := false,
+    lfpsCyclesSent := 0, ts1Detected := false, invertedTs1Detected := false, ts2Detected := false,
+    hotResetRequested := false, loopbackRequested := false, noScramblingRequested := false,
+    tsBurstComplete := false, idleHandshakeComplete := false, enableComplianceScrambling := false }
+
+def exCfg : Config := ⟨24, 4, 720, 1024, true, false⟩
+
+/-- power-on → Rx.Detect.Active → Polling.LFPS → RxEQ → Active → Configuration → Exit → Idle → U0 -/
+def exTrain : List In :=
+  [exIn, { exIn with linkPartnerDetected := true },
+   { exIn with lfpsPollingDetected := true, lfpsCyclesSent := 16 }, { exIn with lfpsCyclesSent := 20 },
+   { exIn with tsBurstComplete := true }, { exIn with tsBurstComplete := true },
+   { exIn with ts1Detected := true }, { exIn with ts2Detected := true },
+   { exIn with tsBurstComplete := true }, { exIn with tsBurstComplete := true },
+   { exIn with idleHandshakeComplete := true }]
+
+example : (grun exCfg ginit exTrain).s.st = .U0 := by decide
+example : (grun exCfg ginit exTrain).sinceReset.length = 11 := by decide
+example : (grun exCfg ginit (exTrain ++ [{ exIn with inUsbReset := true }])).s.st = .RxDetectReset := by decide
+example : (ageRun exCfg (init, 0) (exTrain.take 10 ++ List.replicate 4 exIn)).1.st = .PollingIdle ∧
+          (ageRun exCfg (init, 0) (exTrain.take 10 ++ List.replicate 4 exIn)).2 = 4 ∧
+          (ageRun exCfg (init, 0) (exTrain.take 10 ++ List.replicate 5 exIn)).1.st = .RxDetectReset := by decide
+example : (out exCfg (scrRun exCfg ⟨init, false, false⟩ exTrain).s exIn).enableScrambling = true := by decide
+
+example : Config.Valid ⟨24, 4, 720, 1024, true, false⟩ := by simp [Config.Valid]
 
 end LunaVerif.Ltssm
